@@ -44,10 +44,23 @@ type txCase struct {
 	cellwiseCommit int // C23: successful non-ff commits that merged a row cell-wise
 	mergeCommit    int
 	rejected       int
+	excluded       int
 	headHash       map[string]string
 }
 
 func (c *txCase) class(s string) { c.cls[s] = true }
+
+// Known finding (see known_findings.json): a DML statement that fails while executing in an
+// autocommit session leaves its implicit transaction open, and the session's next statement runs
+// on that old snapshot. While the finding is listed as open the generator keeps such a session's
+// next statement to COMMIT/ROLLBACK (which ends the stale transaction) and counts the exclusion;
+// otherwise nothing is excluded and the model applies the property as stated (the failed
+// statement's transaction is over).
+const txFindingStaleTx = "C22-autocommit-stale-tx-after-failed-dml"
+
+func txStaleTxOpen() bool {
+	return vh.OpenFinding("C22", txFindingStaleTx) || vh.OpenFinding("C23", txFindingStaleTx)
+}
 
 func (c *txCase) logf(format string, a ...any) { c.hist = append(c.hist, fmt.Sprintf(format, a...)) }
 
@@ -67,18 +80,11 @@ func errStr(err error) string {
 	return fmt.Sprintf("ERR %d %s", vsql.ErrCode(err), s)
 }
 
-// txOpen opens a client session on database db. vsql hands out pooled connections whose
-// server-side session may carry state of an earlier case (autocommit=0, an open transaction, a
-// checked-out branch), so the session is normalised first.
+// txOpen opens a client session on database db (always a brand-new server-side session: the
+// fixture's pool keeps no idle connections).
 func txOpen(t vsql.TB, srv *vsql.Server, name, db string) *vsql.Session {
 	t.Helper()
-	s := srv.Session(t, name, "")
-	s.MustExec(t, "ROLLBACK")
-	s.MustExec(t, "SET autocommit=1")
-	if db != "" {
-		s.MustExec(t, "USE `"+db+"`")
-	}
-	return s
+	return srv.Session(t, name, db)
 }
 
 // ---------------------------------------------------------------------------------------
@@ -120,7 +126,7 @@ func (c *txCase) genPred(sc *txSchema, label string) txPred {
 	return txPred{kind: "all"}
 }
 
-func (c *txCase) genWrite(tgt txTarget, label string) *txWrite {
+func (c *txCase) genWrite(tgt txTarget, label string, view *vsql.Table) *txWrite {
 	sc := c.m.db.schema(tgt.table)
 	w := &txWrite{tgt: tgt}
 	switch k := rapid.IntRange(0, 19).Draw(c.rt, label+".kind"); {
@@ -138,6 +144,18 @@ func (c *txCase) genWrite(tgt txTarget, label string) *txWrite {
 		n := rapid.IntRange(1, 2).Draw(c.rt, label+".nrows")
 		for i := 0; i < n; i++ {
 			pk := rapid.IntRange(1, c.cfg.pkMax).Draw(c.rt, fmt.Sprintf("%s.r%d.pk", label, i))
+			if w.kind == "insert" && view != nil {
+				// two times out of three move on to a key that is free in the writer's view
+				if _, taken := view.Rows[strconv.Itoa(pk)]; taken && rapid.IntRange(0, 2).Draw(c.rt, fmt.Sprintf("%s.r%d.free", label, i)) > 0 {
+					for j := 1; j <= c.cfg.pkMax; j++ {
+						cand := (pk+j-1)%c.cfg.pkMax + 1
+						if _, t2 := view.Rows[strconv.Itoa(cand)]; !t2 {
+							pk = cand
+							break
+						}
+					}
+				}
+			}
 			w.rows = append(w.rows, c.genRow(sc, pk, fmt.Sprintf("%s.r%d", label, i)))
 		}
 	case "update":
@@ -285,7 +303,20 @@ func (c *txCase) doRead(s *txSess) {
 	tgt := txTarget{s.cur(), sc.name}
 	head := false
 	var ref string
+	// half of the reads inside a transaction go back to something the transaction has read before
+	if n := len(s.readOrder); s.inTx && n > 0 && rapid.IntRange(0, 9).Draw(rt, "read.again") < 5 {
+		prev := s.readOrder[rapid.IntRange(0, n-1).Draw(rt, "read.prev")]
+		tgt, head = prev.tgt, prev.head
+		sc = c.m.db.schema(tgt.table)
+		v = "again"
+	}
 	switch v {
+	case "again":
+		if head {
+			ref = tgt.table + " AS OF '" + tgt.branch + "'"
+		} else {
+			ref = c.workingRef(s, tgt, false)
+		}
 	case "cur":
 		ref = tgt.table
 	case "curq":
@@ -347,6 +378,7 @@ func (c *txCase) doRead(s *txSess) {
 		}
 		if _, ok := s.readVer[key]; !ok {
 			s.readVer[key] = ver
+			s.readOrder = append(s.readOrder, txReadKey{tgt, head})
 		}
 		if _, ok := s.own[tgt]; ok && !head {
 			c.class("read_own_writes")
@@ -367,16 +399,39 @@ func (c *txCase) doRead(s *txSess) {
 func (c *txCase) doWrite(s *txSess) {
 	rt := c.rt
 	b := s.cur()
+	sc := c.m.db.schemas[rapid.IntRange(0, len(c.m.db.schemas)-1).Draw(rt, "write.table")]
+	// working tables that some other open transaction has read: writing there (and committing)
+	// is what makes a later re-read by that transaction interesting
+	var hot []txTarget
+	for _, o := range c.sess {
+		if o != s && o.inTx && (!o.ac || o.explicit) {
+			for _, rk := range o.readOrder {
+				if !rk.head {
+					hot = append(hot, rk.tgt)
+				}
+			}
+		}
+	}
 	if s.inTx && s.dirtyBranch != "" {
 		b = s.dirtyBranch // one transaction may change one branch only ("Cannot commit changes on more than one branch")
+		for _, h := range hot {
+			if h.branch == b && rapid.IntRange(0, 1).Draw(rt, "write.hot") == 0 {
+				sc = c.m.db.schema(h.table)
+				break
+			}
+		}
+	} else if len(hot) > 0 && rapid.IntRange(0, 1).Draw(rt, "write.hot") == 0 {
+		h := hot[rapid.IntRange(0, len(hot)-1).Draw(rt, "write.hotidx")]
+		if c.cfg.crossBranchWrites || h.branch == b {
+			b, sc = h.branch, c.m.db.schema(h.table)
+		}
 	} else if c.cfg.crossBranchWrites && len(c.m.db.branches) > 1 && rapid.IntRange(0, 5).Draw(rt, "write.other") == 0 {
 		b = rapid.SampledFrom(c.m.db.branches).Draw(rt, "write.branch")
 	}
-	sc := c.m.db.schemas[rapid.IntRange(0, len(c.m.db.schemas)-1).Draw(rt, "write.table")]
 	tgt := txTarget{b, sc.name}
-	w := c.genWrite(tgt, "write")
-	q := w.sql(sc, c.workingRef(s, tgt, false))
 	c.m.begin(s)
+	w := c.genWrite(tgt, "write", c.m.view(s, tgt, false))
+	q := w.sql(sc, c.workingRef(s, tgt, false))
 	own := c.m.ownTable(s, tgt)
 	trial := own.Clone()
 	dup := w.apply(trial)
@@ -388,6 +443,13 @@ func (c *txCase) doWrite(s *txSess) {
 			c.fail("[%s] %s: expected duplicate-key error 1062, got %s", s.name, q, errStr(err))
 		}
 		c.class("dup_key_error")
+		if s.ac && !s.explicit {
+			c.class("failed_dml_in_autocommit")
+			if txStaleTxOpen() {
+				s.mustReset = true
+				c.excluded++
+			}
+		}
 	case err != nil:
 		c.fail("[%s] %s: unexpected error %v", s.name, q, err)
 	default:
@@ -563,12 +625,25 @@ func (c *txCase) doDoltCommit(s *txSess) {
 	err := s.conn.Exec(q)
 	c.logf("%s: %s -> %s", s.name, q, errStr(err))
 	switch {
-	case nothing:
+	case nothing && !info.conflict:
+		// dolt_commit "is expected to COMMIT": with nothing to put into a dolt commit it still commits
+		// the SQL transaction (dolt_commit.go: "Finalize the transaction if there is one") and then
+		// reports "nothing to commit".
 		if err == nil || vsql.ErrCode(err) == 1213 || !strings.Contains(err.Error(), "nothing to commit") {
 			c.fail("[%s] %s: the session's view of %s equals its head; expected 'nothing to commit', got %s", s.name, q, b, errStr(err))
 		}
 		c.class("doltcommit_nothing")
-		c.afterStmt(s, true)
+		for tgt, t := range merged {
+			c.m.db.setW(tgt, t)
+		}
+		if info.changed {
+			c.class("doltcommit_nothing_commits_tx")
+		}
+		c.m.end(s)
+		if s.explicit {
+			s.mustReset = true
+		}
+		c.checkCommitted(c.obs, b, "after dolt_commit (nothing to commit) of "+s.name, true)
 		return
 	case info.conflict:
 		if vsql.ErrCode(err) != 1213 {
@@ -753,7 +828,7 @@ func txRunCase(rt *rapid.T, srv *vsql.Server, admin *vsql.Session, cfg *txCfg, r
 		b := rapid.SampledFrom(branches).Draw(rt, fmt.Sprintf("div%d.branch", i))
 		sc := schemas[rapid.IntRange(0, len(schemas)-1).Draw(rt, fmt.Sprintf("div%d.table", i))]
 		tgt := txTarget{b, sc.name}
-		w := c.genWrite(tgt, fmt.Sprintf("div%d", i))
+		w := c.genWrite(tgt, fmt.Sprintf("div%d", i), c.m.db.W[tgt])
 		trial := c.m.db.W[tgt].Clone()
 		if w.apply(trial) {
 			continue
@@ -869,5 +944,8 @@ func txRunCase(rt *rapid.T, srv *vsql.Server, admin *vsql.Session, cfg *txCfg, r
 	}
 	sort.Strings(classes)
 	classes = append(classes, fmt.Sprintf("sessions=%d", ns), fmt.Sprintf("branches=%d", nb))
+	if c.excluded > 0 {
+		rec.Excluded(c.excluded)
+	}
 	rec.Case(strings.Join(c.hist, " | "), nontrivial, classes...)
 }
